@@ -6,13 +6,77 @@
 _Bool wb_thrown;
 size_t wb_g_slot;          /* arbitrary result slot (ghost index), chosen by the harness, never assigned */
 
-#define SAME(a, b) ((a) == (b) || ((a) != (a) && (b) != (b)))   /* equality that holds for NaN == NaN */
+/* SAME : equal as IEEE values including the sign of zero, or both NaN (NaN payloads not distinguished);
+ *        usable on rvalues (formula results).
+ * SAMEL: bit-identical, for two lvalues (memory cells, ghost variables); no temporaries, so it is usable in
+ *        loop invariants and in any contract clause.  SAMEL implies SAME; SAME implies SAMEL except on NaN. */
+#define SAME(a, b) (((a) == (b) && __CPROVER_signd(a) == __CPROVER_signd(b)) || ((a) != (a) && (b) != (b)))
+#define SAMEL(a, b) (*(const unsigned long *)&(a) == *(const unsigned long *)&(b))
 #define FINITE(x) ((x) == (x) && (x) != WB_INFINITY && (x) != -WB_INFINITY)
 #define IS_BOOL(b) ((b) == 0 || (b) == 1)
 
 /* layout of a batched request: number of output values of one property entry (property statement C01) */
 #define WIDTH(p) ((p).e[0] == 3u ? (size_t)(p).e[2] * 10ul : (p).e[0] == 5u ? (size_t)3 : (size_t)1)
 #define VALID_PROPERTY(p) ((p).e[0] >= 1u && (p).e[0] <= 5u)
+
+/* Ghost layout tables for a request p[0..n) of at most MAXP entries (MAXP in {1,2,4,8,16,32,64}).  They are
+ * *defined* by the precondition LAYOUT_OK (a definitional extension: for every request exactly one table
+ * satisfies it), so every use is linear in MAXP:
+ *   g_pre[k]   = sum of WIDTH(p[j]) for j < k        offset of block k in the batched answer
+ *   g_total    = g_pre[n]                            announced number of values
+ *   g_allvalid = every entry has a known property id
+ *   g_invel    = slot wb_g_slot lies in the 3-slot block of a velocity entry; g_veloff = that block's offset */
+size_t g_pre[MAXP + 1];
+size_t g_total, g_veloff;
+unsigned char g_allvalid, g_invel;
+#define SPEC_CAT_(a, b) a##b
+#define SPEC_CAT(a, b) SPEC_CAT_(a, b)
+#define PK_(p, n, j) ((n) <= (size_t)(j) || g_pre[(j) + 1] == g_pre[j] + WIDTH((p)[j]))
+#define PK1(p, n, b) PK_(p, n, b)
+#define PK2(p, n, b) (PK1(p, n, b) && PK1(p, n, (b) + 1))
+#define PK4(p, n, b) (PK2(p, n, b) && PK2(p, n, (b) + 2))
+#define PK8(p, n, b) (PK4(p, n, b) && PK4(p, n, (b) + 4))
+#define PK16(p, n, b) (PK8(p, n, b) && PK8(p, n, (b) + 8))
+#define PK32(p, n, b) (PK16(p, n, b) && PK16(p, n, (b) + 16))
+#define PK64(p, n, b) (PK32(p, n, b) && PK32(p, n, (b) + 32))
+#define AV_(p, n, j) ((n) <= (size_t)(j) || VALID_PROPERTY((p)[j]))
+#define AV1(p, n, b) AV_(p, n, b)
+#define AV2(p, n, b) (AV1(p, n, b) && AV1(p, n, (b) + 1))
+#define AV4(p, n, b) (AV2(p, n, b) && AV2(p, n, (b) + 2))
+#define AV8(p, n, b) (AV4(p, n, b) && AV4(p, n, (b) + 4))
+#define AV16(p, n, b) (AV8(p, n, b) && AV8(p, n, (b) + 8))
+#define AV32(p, n, b) (AV16(p, n, b) && AV16(p, n, (b) + 16))
+#define AV64(p, n, b) (AV32(p, n, b) && AV32(p, n, (b) + 32))
+#define IV_(p, n, s, j) ((n) > (size_t)(j) && (p)[j].e[0] == 5u && g_pre[j] <= (s) && (s) < g_pre[j] + 3)
+#define IV1(p, n, s, b) IV_(p, n, s, b)
+#define IV2(p, n, s, b) (IV1(p, n, s, b) || IV1(p, n, s, (b) + 1))
+#define IV4(p, n, s, b) (IV2(p, n, s, b) || IV2(p, n, s, (b) + 2))
+#define IV8(p, n, s, b) (IV4(p, n, s, b) || IV4(p, n, s, (b) + 4))
+#define IV16(p, n, s, b) (IV8(p, n, s, b) || IV8(p, n, s, (b) + 8))
+#define IV32(p, n, s, b) (IV16(p, n, s, b) || IV16(p, n, s, (b) + 16))
+#define IV64(p, n, s, b) (IV32(p, n, s, b) || IV32(p, n, s, (b) + 32))
+#define VO_(p, n, s, j) (!IV_(p, n, s, j) || g_veloff == g_pre[j])
+#define VO1(p, n, s, b) VO_(p, n, s, b)
+#define VO2(p, n, s, b) (VO1(p, n, s, b) && VO1(p, n, s, (b) + 1))
+#define VO4(p, n, s, b) (VO2(p, n, s, b) && VO2(p, n, s, (b) + 2))
+#define VO8(p, n, s, b) (VO4(p, n, s, b) && VO4(p, n, s, (b) + 4))
+#define VO16(p, n, s, b) (VO8(p, n, s, b) && VO8(p, n, s, (b) + 8))
+#define VO32(p, n, s, b) (VO16(p, n, s, b) && VO16(p, n, s, (b) + 16))
+#define VO64(p, n, s, b) (VO32(p, n, s, b) && VO32(p, n, s, (b) + 32))
+/* one requires clause each (kept separate on purpose) */
+#define LAYOUT_PRE(p, n) (g_pre[0] == 0 && SPEC_CAT(PK, MAXP)(p, (size_t)(n), 0) && g_total == g_pre[n])
+#define LAYOUT_VALID(p, n) (g_allvalid == (SPEC_CAT(AV, MAXP)(p, (size_t)(n), 0) ? 1 : 0))
+#define LAYOUT_INVEL(p, n) (g_invel == (SPEC_CAT(IV, MAXP)(p, (size_t)(n), wb_g_slot, 0) ? 1 : 0))
+#define LAYOUT_VELOFF(p, n) (SPEC_CAT(VO, MAXP)(p, (size_t)(n), wb_g_slot, 0))
+
+/* C globals start at zero: every harness must make its ghost constants arbitrary first */
+#define HAVOC(x) do { __typeof__(x) nd_; (x) = nd_; } while (0)
+static inline void spec_havoc_layout(void)
+{
+  size_t a[MAXP + 1];
+  __CPROVER_array_replace(g_pre, a);
+  HAVOC(g_total); HAVOC(g_veloff); HAVOC(g_allvalid); HAVOC(g_invel); HAVOC(wb_g_slot);
+}
 
 /* vacuity guard: every harness ends in REACHABLE(); it must FAIL (the check treats a pass as contradiction) */
 #define REACHABLE() __CPROVER_assert(0, "REACHABILITY-GUARD harness end is reachable")
